@@ -51,6 +51,8 @@ pub fn run(cfg: &Cfg, rep: &mut Report) -> Result<(), String> {
         #[cfg(feature = "utf16")]
         "c09u16" => u16mon::run(cfg, rep, u16mon::Mode::Iter),
         #[cfg(feature = "utf16")]
+        "c06u16" => u16mon::run(cfg, rep, u16mon::Mode::RobustMem),
+        #[cfg(feature = "utf16")]
         "c14u16" => u16mon::run(cfg, rep, u16mon::Mode::Robust),
         #[cfg(feature = "utf16")]
         "c05u16" => u16mon::run(cfg, rep, u16mon::Mode::Steps),
